@@ -498,6 +498,65 @@ Unlatch(t) ==
 
 
 -----------------------------------------------------------------------------
+(* Filters, iteration and aggregates (C04).  The selection is a set of tracked offsets plus the runs of     *)
+(* value-less rows that were live when it was taken.  A name denotes a set of rows: a bitmap index its      *)
+(* members, a data column the rows holding a value (a bool column: the rows holding TRUE).                  *)
+
+NameKnown(S, n) == n \in DOMAIN S.ix \cup DOMAIN S.reg
+RowsOf(S, n) == IF n \in DOMAIN S.ix THEN S.ix[n].set ELSE S.has[n]
+
+\* the selection must have been taken (every filter and read takes it first)
+Selected(t) == txn[t].pc = "body" /\ txn[t].setup
+
+\* f: with | without | union | withunion; first: the transaction had not taken its selection before this call
+\* (the harness logs the "sel" event first in any case, and tells whether the call found it taken)
+FilterNames(t, f, names, first) ==
+  /\ Selected(t)
+  /\ LET S == Coll(t)
+         known == SelectSeq(names, LAMBDA n : NameKnown(S, n))
+         U == UNION {RowsOf(S, known[i]) : i \in DOMAIN known}
+         sel == txn[t].sel
+         fl == txn[t].self
+     IN \E r \in
+          CASE f = "with" ->
+                 {IF Len(known) < Len(names) THEN [sel |-> {}, fl |-> {}]
+                  ELSE [sel |-> {o \in sel : \A i \in DOMAIN names : o \in RowsOf(S, names[i])},
+                        fl |-> IF names = <<>> THEN fl ELSE {}]}
+            [] f = "without" ->
+                 {[sel |-> sel \ U, fl |-> fl]}
+            [] f = "union" \/ (f = "withunion" /\ first) ->
+                 \* the first Union of an unfiltered transaction starts from its first operand; if that operand is an
+                 \* unknown name the code unions the rest into ALL rows while set algebra would start from the empty
+                 \* set: both readings are accepted
+                 IF first /\ names # <<>>
+                   THEN IF NameKnown(S, names[1])
+                          THEN {[sel |-> (sel \cap RowsOf(S, names[1])) \cup UNION {RowsOf(S, known[i]) : i \in 2..Len(known)}, fl |-> {}]}
+                          ELSE {[sel |-> sel \cup U, fl |-> fl], [sel |-> U, fl |-> {}]}
+                   ELSE {[sel |-> sel \cup U, fl |-> fl]}
+            [] OTHER ->   \* withunion on a filtered transaction: intersect with the union of the known names
+                 {[sel |-> sel \cap U, fl |-> {}]}
+        : txn' = [txn EXCEPT ![t].sel = r.sel, ![t].self = r.fl]
+  /\ UNCHANGED <<st, used, files, dev>>
+
+\* value predicates: WithValue (any column), WithInt / WithUint / WithFloat (numeric), WithString (textual)
+FilterValue(t, f, col, p) ==
+  /\ Selected(t)
+  /\ LET S == Coll(t)
+         typed == CASE f \in {"wint", "wuint", "wfloat"} -> col \in DOMAIN S.reg /\ S.reg[col].k = "int"
+                    [] f = "wstr" -> col \in DOMAIN S.reg /\ S.reg[col].k \in {"str", "enum", "key", "tok"}
+                    [] OTHER -> col \in DOMAIN S.reg
+         val(o) == IF S.reg[col].k = "bool" THEN TRUE ELSE S.data[col][o]
+     IN txn' = [txn EXCEPT ![t].sel = IF typed THEN {o \in @ \cap S.has[col] : Pred(p, val(o))} ELSE {},
+                           ![t].self = {}]
+  /\ UNCHANGED <<st, used, files, dev>>
+
+SelCount(t) == Cardinality(txn[t].sel) + FillerSize(txn[t].self)
+
+\* aggregates over the selected rows that hold a value in the column
+AggRows(t, col) == txn[t].sel \cap Coll(t).has[col]
+SumOver(S, col, rows) == FoldLeft(LAMBDA acc, o : acc + S.data[col][o], 0, SetToSeq(rows))
+
+-----------------------------------------------------------------------------
 (* Primary keys.  InsertKey / UpsertKey / QueryKey / DeleteKey / SetKey first look the key up in the  *)
 (* committed key table; what follows (reserve, writes, key write, delete marker) are ordinary steps.  *)
 (* KeyCheck records the lookup, KeyEnd checks that the call did what its contract says.               *)
